@@ -54,6 +54,16 @@ func init() {
 		"vfSharedWrites": vfSharedWrites,
 		"vfFail":        vfFail,
 		"vfTimeouts":    vfTimeouts,
+		// vfStub(name, fn): calls of the named function (ssa Function.String(), e.g.
+		// "github.com/deadsy/sdfx/render.mcInterpolate") run fn instead (contract stub)
+		"vfStub": func(fr *frame, args []value) value {
+			ex := fr.i.ex
+			ex.impure("vfStub")
+			it := args[1].(iface)
+			ex.stubs[args[0].(string)] = it.v
+			ex.Note("contract-stub", args[0].(string))
+			return nil
+		},
 		"vfFork": func(fr *frame, args []value) value {
 			ex := fr.i.ex
 			ex.impure("vfFork")
